@@ -82,6 +82,7 @@ impl Chain {
         pt.add_program("noop", NOOP_PROG, processor!(tap::noop_entry));
         // stateful venue stand-ins at the venue program ids (see venue.rs)
         pt.add_program("kamino_standin", crate::venue::KAMINO, processor!(crate::venue::kamino_entry));
+        pt.add_program("solend_standin", crate::venue::SOLEND, processor!(crate::venue::solend_entry));
         let payer = kp(seed, 0xFEE);
         pt.add_account(
             payer.pubkey(),
